@@ -570,7 +570,11 @@ pub fn build_stream(docs: &[Vec<u8>], f: Fmt, r: &mut Rng, vary: bool) -> Stream
 					s.bytes.extend_from_slice(b"# comment\n");
 				}
 				let st = s.bytes.len();
-				s.bytes.extend_from_slice(b"---\n");
+				// The marker of the first document is optional for collection documents.
+				let bare_first = i == 0 && vary && r.chance(1, 3) && d.first().is_some_and(|c| matches!(c, b'[' | b'{' | b'-' | b'a'..=b'z' | b'"'));
+				if !bare_first {
+					s.bytes.extend_from_slice(b"---\n");
+				}
 				let mut body = d.clone();
 				if !body.ends_with(b"\n") {
 					body.push(b'\n');
